@@ -233,7 +233,23 @@ func c09History(c *Ctx, cs Case, prop string) {
 		// ---- abstract oracle (from the property statement) ----
 		lists, wf := specOf(enc)
 		if !wf {
-			fail(i, "database no longer encodes to a well-formed stream", hx(enc), "Spec.decodeDb = some _", "")
+			// F20 (known): a list without signatures keeps SignatureSize 0 (NewSignatureList, or a list
+			// emptied by the list-level RemoveBytes) and AppendList stores it as it is. Narrow: the
+			// stream is well-formed once exactly those lists are left out.
+			matcher := ""
+			rest := signature.NewSignatureDatabase()
+			empties := 0
+			for _, l := range *db {
+				if len(l.Signatures) == 0 && l.Size == 0 && l.ListSize == 28 {
+					empties++
+					continue
+				}
+				rest.AppendList(l)
+			}
+			if _, ok := specOf(rest.Bytes()); ok && empties > 0 {
+				matcher = "c07.empty_list_size_zero"
+			}
+			fail(i, "database no longer encodes to a well-formed stream", hx(enc), "Spec.decodeDb = some _", matcher)
 			return
 		}
 		abs = absOf(lists)
@@ -455,7 +471,10 @@ func genHistory(c *Ctx, u *c09Universe, maxLen int) Case {
 			ops = append(ops, "E")
 		default:
 			// a list built through the list-level API with certificates of two different lengths
-			if c.Rng.Intn(3) == 0 {
+			if r := c.Rng.Intn(6); r == 5 {
+				// AppendList of a list nothing was appended to (known finding F20)
+				ops = append(ops, fmt.Sprintf("LM,%s,-", hx([][]byte{tSHA256, tX509}[c.Rng.Intn(2)])))
+			} else if r < 2 {
 				ops = append(ops, fmt.Sprintf("LM,%s,%s", hx(tX509), hx(u.owners[0])+":"+hx(u.data[4])+"+"+hx(u.owners[1])+":"+hx(u.data[7])))
 			} else {
 				ops = append(ops, "E")
@@ -555,7 +574,7 @@ func c09Gen(c *Ctx) {
 func init() {
 	register("C09", &PropDef{
 		Rule: "random histories of append / remove / BytesExists / Exists / AppendList / encode-decode over types {X509, SHA256, SHA1 (valid, undecodable), unknown GUID} x 2 owners x {two hashes, 31- and 33-byte strings, cert A DER/PEM, cert B (|B|=|A|), cert C DER/PEM (|C|!=|A|), 20 bytes}, started from empty or from a decoded well-formed stream; operands are biased towards recently used triples. Non-trivial: at least two operations of at least two kinds; distinct = distinct histories.",
-		Assume: []string{"lists handed to AppendList are fresh, well-formed, non-empty and duplicate-free (slice aliasing between two databases is outside the model)", "a decoded start database has no duplicate entry inside a list"},
+		Assume: []string{"lists handed to AppendList are fresh, well-formed and duplicate-free (slice aliasing between two databases is outside the model); an empty one reproduces known finding F20", "a decoded start database has no duplicate entry inside a list"},
 		Eval:   c09Eval,
 		Gen:    c09Gen,
 	})
